@@ -546,7 +546,7 @@ func (e *Engine) errGlobalTerm(o *types.Var) (string, bool) {
 	e.errGlobals[name] = id
 	q := e.sc.decl("errconst$"+name, "Int")
 	f := e.sc.declFun("errid", []string{"Int"}, "Int")
-	e.sc.assert(fmt.Sprintf("(and (not (= %s 0)) (= (%s %s) %d))", q, f, q, id))
+	e.sc.assert(fmt.Sprintf("(and (not (= %s 0)) (= (%s %s) %d) (implErr (dyntype %s)))", q, f, q, id, q))
 	return q, true
 }
 
@@ -653,6 +653,7 @@ func (fr *Frame) assertAtStore(a Val, v Val) {
 			continue
 		}
 		env := fr.envAt(fr.block, fr.idx, fr.cur.st, nil)
+		fr.matched[c] = true
 		env.names["target"] = Val{T: a.Src.base, Ty: types.Typ[types.UnsafePointer]}
 		env.names["value"] = v
 		t, err := env.Goal(c.Expr)
@@ -1152,6 +1153,12 @@ func (fr *Frame) applyContract(sp *FuncSpec, name string, sig *types.Signature, 
 	for _, c := range sp.Requires {
 		t, err := env.Goal(c.Expr)
 		if err != nil {
+			if strings.Contains(c.File, "/contracts/ext/") && strings.Contains(err.Error(), "type") {
+				// an assumed contract of a dependency that talks about types this package set does not load:
+				// the clause cannot concern these functions (same rule as for axioms)
+				e.assume("clause " + labelOr(c) + " of " + short + " not applicable in this package set (" + err.Error() + ")")
+				continue
+			}
 			e.unsupported = append(e.unsupported, fmt.Sprintf("%s: requires of %s (%s:%d): %v", fr.prefix, short, c.File, c.Line, err))
 			fr.oblige("pre@"+short, labelOr(c), "false")
 			continue
